@@ -5,14 +5,27 @@
 #include "relmodel.h"
 using namespace V;
 
-static Table randomRelation(Rng& r, const World& w, const FSpec& frel, std::string& desc) {
+// evs: in = the previous call's events (empty: none), out = this call's events.  Half of the follow-up calls use a relation that
+// differs from the previous one by a single event confined to the variables at or below a random level (added or removed): the
+// two saturations then share every event below that level -- and whatever the operation cached for them -- but not above it.
+static Table randomRelation(Rng& r, const World& w, const FSpec& frel, std::string& desc, std::vector<Event>& evs, Ctx& c) {
+    const int n = w.shape.n();
+    if (!evs.empty() && r.chance(1, 2)) {
+        desc = "variant-of-previous:";
+        if (evs.size() >= 2 && r.chance(1, 3)) { size_t k = r.below(evs.size()); desc += " minus " + eventStr(evs[k], w.shape); evs.erase(evs.begin() + long(k)); }
+        else { Event e = randomEvent(r, w.shape, int(r.below(3))); int top = r.range(1, n); for (int k = top + 1; k <= n; k++) e.v[size_t(k)] = VarRule(); desc += " plus(vars<=" + tos(top) + ") " + eventStr(e, w.shape); evs.push_back(e); }
+        c.count("relations_differing_by_one_event_from_previous_call");
+        std::vector<Table> ts; for (auto& e : evs) ts.push_back(eventTable(w, e));
+        return unionTables(ts, size_t(w.N * w.N));
+    }
+    evs.clear();
     if (r.chance(1, 6)) { std::vector<Val> a = {Val::b(true)}; desc = "random-table"; Table t = randomTable(r, w, frel, a);
         // keep random tables sparse-ish so closures are not always everything
         if (r.chance(1, 2)) for (auto& v : t) if (v.truthy() && r.chance(2, 3)) v = Val::b(false);
         return t; }
     int ne = r.range(1, 5); std::vector<Table> ts;
     desc = "events";
-    for (int i = 0; i < ne; i++) { Event e = randomEvent(r, w.shape, int(r.below(3))); desc += " " + eventStr(e, w.shape); ts.push_back(eventTable(w, e)); }
+    for (int i = 0; i < ne; i++) { Event e = randomEvent(r, w.shape, int(r.below(3))); desc += " " + eventStr(e, w.shape); ts.push_back(eventTable(w, e)); evs.push_back(e); }
     return unionTables(ts, size_t(w.N * w.N));
 }
 
@@ -56,14 +69,17 @@ static void run(Ctx& c) {
     uint64_t sig = 0; bool nontriv = false, threw = false; std::string sample;
     int reps = r.range(1, 4); if (getenv("C08_ONE")) reps = 1;
     const std::string cfg = std::string(mode == 0 ? "bool" : mode == 1 ? "MTdist" : "EV+dist") + ":rel=" + shortNameOf(frel.rr) + ":" + shortNameOf(fin.rr) + "->" + shortNameOf(fout.rr);
+    std::vector<Event> prevEvents; std::vector<long> prevD0;
     for (int rep = 0; rep < reps; rep++) {
-        std::string rdesc; Table tr = randomRelation(r, w, frel, rdesc);
+        std::string rdesc; Table tr = randomRelation(r, w, frel, rdesc, prevEvents, c);
         dd_edge er(FR); buildChecked(w, FR, frel, tr, er, "C08");
         // initial states / distances
         std::vector<long> d0(size_t(N), -1);
         int ninit = r.chance(1, 10) ? 0 : r.range(1, 3);
         if (r.chance(1, 8)) ninit = int(N / 2);
         for (int i = 0; i < ninit; i++) d0[size_t(r.below(uint64_t(N)))] = (mode != 0 && r.chance(1, 4)) ? r.range(1, 4) : 0;
+        if (!prevD0.empty() && r.chance(1, 2)) { d0 = prevD0; c.count("calls_reusing_previous_initial_states"); }
+        prevD0 = d0;
         Table ts(static_cast<size_t>(N));
         for (long i = 0; i < N; i++) {
             if (mode == 0) ts[size_t(i)] = Val::b(d0[size_t(i)] >= 0);
